@@ -192,6 +192,24 @@ Proof. rewrite cos_0. Lra.lra. Qed.
 Example C02_nonvacuous_axes : (1 < 2 < 3 \/ 3 < 2 < 1) /\ 0 < 1 < PI / 2.
 Proof. split; [left; Lra.lra |]. pose proof PI2_1. Lra.lra. Qed.
 
+(* ---------------------------------------------------------------------------------------------------------------------
+   Composition with C01 (the property quantifies over every built-in crystal, in-window wavelength and temperature):
+   the generated index_along applied to the generated principal indices of the crystal. *)
+From SpdVerif Require Import Spec.CrystalTypes Spec.Published Gen.Crystals Proofs.Sellmeier Proofs.Compose_index.
+
+Theorem C02_crystal_index_is_fresnel : forall c l T theta phi d p,
+  in_window c l -> temp_ok T -> unit_vec d ->
+  crystal_index c l T theta phi d p = index_model theta phi (nx_of c l T) (ny_of c l T) (nz_of c l T) d p.
+Proof. exact crystal_index_is_fresnel. Qed.
+
+(* finite, positive, physical: strictly between 1 and 4 for every crystal, orientation, direction and polarization *)
+Theorem C02_crystal_index_bounds : forall c l T theta phi d p,
+  in_window c l -> temp_ok T -> unit_vec d -> 1 < crystal_index c l T theta phi d p < 4.
+Proof. exact crystal_index_bounds. Qed.
+
+Example C02_crystal_nonvacuous : in_window KTP 1.55 /\ temp_ok 20 /\ unit_vec (0, 0, 1).
+Proof. unfold in_window, temp_ok, unit_vec, vnorm2, vdot, vx, vy, vz; cbn. repeat split; Lra.lra. Qed.
+
 Print Assumptions C02_disc_nonneg.
 Print Assumptions C02_roots_of_fresnel.
 Print Assumptions C02_interlace.
@@ -214,3 +232,5 @@ Print Assumptions C02_walkoff_sign_and_90.
 Print Assumptions C02_walkoff_gen_is_central_difference.
 Print Assumptions C02_walkoff_truncation_partial.
 Print Assumptions C02_walkoff_defined.
+Print Assumptions C02_crystal_index_is_fresnel.
+Print Assumptions C02_crystal_index_bounds.
